@@ -26,6 +26,7 @@ type lifeScen struct {
 	rejected bool
 	timedOut bool
 	gi       *model.GroupInfo
+	overStored bool   // an over-long signer id sits among the messages round0 stored
 	pending  []string // id hex of honest senders whose messages sit in Processor.futureMessages[hash]
 	npending int
 }
@@ -173,6 +174,12 @@ func (r *runner) lifeLines(s *scen, lines []string, stopAtTimeout bool) []string
 							l.pending = append(l.pending, s.ks.ids[b.honestOf].GetHexString())
 						}
 					}
+					if stage == "r0" && b.f["idenc"] == "over" && b.f["filed"] == "K" {
+						l.overStored = true
+					}
+					if b.honestOf >= 0 && s.pk[b.honestOf] && !s.chain.exists && !s.reaped && b.f["filed"] == "H" && stage != "gone" {
+						s.honest[b.honestOf] = true
+					}
 					s.round.P.OnMessageVerify(m)
 				}
 				r.st.Effects["life-"+stage]++
@@ -208,6 +215,9 @@ func (r *runner) lifeLines(s *scen, lines []string, stopAtTimeout bool) []string
 func (r *runner) runLife(sc script, _ interface{}) {
 	s := r.lifeSetup(sc)
 	r.lifeLines(s, sc.lines[1:], false)
+	if r.search && s.lifeStage() == "signing" && !s.life.rejected && !s.life.timedOut {
+		r.checkFinal(s)
+	}
 	end := s.ending
 	if end == "" {
 		end = "open"
